@@ -297,3 +297,51 @@ N("None test written as truthiness", ["C13"],
     "        for _, request in self.factory.windowSubscribe[self.addr].items():\n            if request.alarm:\n                request.alarm.cancel()\n                request.alarm = None\n        for _, request in self.factory.windowUnsubscribe")])
 N("cancel before del in handleSUBACK", ["C13"],
   [(PS, "            del self.factory.windowSubscribe[self.addr][response.msgId]\n            request.alarm.cancel()\n", "            request.alarm.cancel()\n            del self.factory.windowSubscribe[self.addr][response.msgId]\n")])
+
+# ---------------------------------------------------------------- C04
+B("handleCONNACK without alarm.cancel()", ["C04"], [(BASE, "        request = self.connReq\n        request.alarm.cancel()\n", "        request = self.connReq\n")], {"C04": ["K2"]})
+B("callback(response.resultCode)", ["C04"], [(BASE, "            request.deferred.callback(response.session)", "            request.deferred.callback(response.resultCode)")], {"C04": ["K2"]})
+B("refusal branch without STATE(IDLE)", ["C04"], [(BASE, "        else:\n            self.state = self.IDLE\n            if response.resultCode", "        else:\n            if response.resultCode")], {"C04": ["K2"]})
+B("unguarded table index (D1 re-introduced)", ["C04"],
+  [(BASE, "            if response.resultCode < len(MQTT_CONNECT_CODES):\n                msg = MQTT_CONNECT_CODES[response.resultCode]\n            else:\n                msg = \"Connection Refused, reserved return code\"\n",
+    "            msg = MQTT_CONNECT_CODES[response.resultCode]\n")], {"C04": ["K2"]})
+B("off-by-one table guard", ["C04"], [(BASE, "            if response.resultCode < len(MQTT_CONNECT_CODES):", "            if response.resultCode <= len(MQTT_CONNECT_CODES):")], {"C04": ["K2"]})
+B("doConnect writes twice", ["C04"], [(BASE, "        self.transport.write(pdu)\n        # Changes state", "        self.transport.write(pdu)\n        self.transport.write(pdu)\n        # Changes state")], {"C04": ["K1"]})
+B("timeout delay constant", ["C04"], [(BASE, "        request.alarm = self.callLater(request.keepalive or 10, connectError)", "        request.alarm = self.callLater(10, connectError)")], {"C04": ["K1"]})
+B("connectError without abortConnection", ["C04"], [(BASE, "            request.deferred = None\n            self.transport.abortConnection()            \n", "            request.deferred = None\n")], {"C04": ["K2"]})
+B("connectionLost notifying before doConnectionLost", ["C04"],
+  [(BASE, "        self.doConnectionLost(reason)\n        self.state = self.IDLE\n", "        if self.onDisconnection:\n            self.callLater(0.1, self.onDisconnection, reason)\n        self.doConnectionLost(reason)\n        self.state = self.IDLE\n"),
+   (BASE, "        # which obviopusly it si not what we want.\n        if self.onDisconnection:\n            self.callLater(0.1, self.onDisconnection, reason)\n", "")], {"C04": ["K3"]})
+B("connectionLost without STATE(IDLE)", ["C04"], [(BASE, "        self.doConnectionLost(reason)\n        self.state = self.IDLE\n", "        self.doConnectionLost(reason)\n")], {"C04": ["K3"]})
+B("doPingError not clearing its handle (D13 re-introduced)", ["C04"],
+  [(BASE, "            self._pingReq.alarm = None\n            self.transport.abortConnection()", "            self.transport.abortConnection()")], {"C04": ["K3"]})
+B("notification without the reason", ["C04"], [(BASE, "            self.callLater(0.1, self.onDisconnection, reason)", "            self.callLater(0.1, self.onDisconnection)")], {"C04": ["K3"]})
+B("accepted CONNACK fires errback", ["C04"], [(BASE, "            request.deferred.callback(response.session)", "            request.deferred.errback(response.session)")], {"C04": ["K2"]})
+B("state set to CONNECTING before the write fails nothing", ["C04"],
+  [(BASE, "        self.connReq = request  # keep track of this request until CONNACK or timeout\n", "")], {"C04": ["K1"]})
+N("rc test written as `not rc`", ["C04"], [(BASE, "        if response.resultCode == 0:", "        if not response.resultCode:")])
+N("_cleanStart/_version assignments reordered", ["C04"],
+  [(BASE, "        self._cleanStart = request.cleanStart\n        self._version    = request.version\n", "        self._version    = request.version\n        self._cleanStart = request.cleanStart\n")])
+
+# ---------------------------------------------------------------- C15
+B("keepalive != 0 guard removed", ["C15"],
+  [(BASE, "            if request.keepalive != 0:\n                self._pingReq.keepalive = request.keepalive", "            if True:\n                self._pingReq.keepalive = request.keepalive")], {"C15": ["Q1"]})
+B("period keepalive * 2", ["C15"], [(BASE, "                self._pingReq.timer.start(request.keepalive)", "                self._pingReq.timer.start(request.keepalive * 2)")], {"C15": ["Q1"]})
+B("deadline keepalive + 5", ["C15"], [(BASE, "        self._pingReq.alarm = self.callLater(self._pingReq.keepalive, doPingError)", "        self._pingReq.alarm = self.callLater(self._pingReq.keepalive + 5, doPingError)")], {"C15": ["Q2"]})
+B("handlePINGRESP without cancel", ["C15"],
+  [(BASE, "        if self._pingReq.alarm:\n            self._pingReq.alarm.cancel()\n            self._pingReq.alarm = None\n\n\n    # ---------------------------\n    # Protocol API for subclasses",
+    "        self._pingReq.alarm = None\n\n\n    # ---------------------------\n    # Protocol API for subclasses")], {"C15": ["Q3"]})
+B("unguarded cancel (D2 re-introduced)", ["C15"],
+  [(BASE, "        if self._pingReq.alarm:\n            self._pingReq.alarm.cancel()\n            self._pingReq.alarm = None\n\n\n    # ---------------------------\n    # Protocol API for subclasses",
+    "        self._pingReq.alarm.cancel()\n        self._pingReq.alarm = None\n\n\n    # ---------------------------\n    # Protocol API for subclasses")], {"C15": ["Q3"]})
+B("doPingError without abort", ["C15"], [(BASE, "            self._pingReq.alarm = None\n            self.transport.abortConnection()", "            self._pingReq.alarm = None")], {"C15": ["Q2"]})
+B("PINGREQ re-encoded with another object", ["C15"], [(BASE, "        self.transport.write(self._pingReq.pdu)", "        self.transport.write(PINGREQ().encode())")], {"C15": ["Q2"]})
+B("keepalive loop restarted from connect()", ["C15"],
+  [(BASE, "        self.connReq = request  # keep track of this request until CONNACK or timeout\n", "        self.connReq = request  # keep track of this request until CONNACK or timeout\n        if request.keepalive != 0:\n            self._pingReq.timer = task.LoopingCall(self.ping)\n            self._pingReq.timer.start(request.keepalive)\n")],
+  {"C15": ["Q1"]})
+B("connectionLost without cancelling the deadline", ["C15"],
+  [(BASE, "        if self._pingReq.alarm:\n            self._pingReq.alarm.cancel()\n            self._pingReq.alarm = None\n        self.doConnectionLost(reason)", "        self.doConnectionLost(reason)")], {"C15": ["Q4"]})
+B("PINGREQ written on disconnect", ["C15"], [(BASE, "        self.transport.write(request.encode())\n        self.transport.loseConnection()", "        self.transport.write(self._pingReq.pdu)\n        self.transport.write(request.encode())\n        self.transport.loseConnection()")], {"C15": ["Q5"]})
+N("PINGRESP guard with `is not None`", ["C15"],
+  [(BASE, "        if self._pingReq.alarm:\n            self._pingReq.alarm.cancel()\n            self._pingReq.alarm = None\n\n\n    # ---------------------------\n    # Protocol API for subclasses",
+    "        if self._pingReq.alarm is not None:\n            self._pingReq.alarm.cancel()\n            self._pingReq.alarm = None\n\n\n    # ---------------------------\n    # Protocol API for subclasses")])
